@@ -373,7 +373,7 @@ class Machine(object):
                 it.err = ("exc", "AssertionError")
 
 
-SKIP = frozenset(["with:Xp", "with:Xr", "dd", "ddirty", "dbi"])
+SKIP = frozenset(["with:Xp", "with:Xr", "with:Xq", "dd", "ddirty", "dbi"])
 
 
 def lockstep(prog, r, conv_parent=False):
